@@ -294,6 +294,13 @@ func (vf *VFlow) walk(v ssa.Value, fl uint8, out LabelSet, seen map[string]bool,
 			}
 		}
 		cs := vf.callers[fn]
+		if sl, isCb := vf.cx.Fx.elemCallbackOf(fn); isCb && len(cs) == 0 {
+			// the predicate of slices.ContainsFunc(list, func(e T) bool {...}): e is an element of list
+			for l := range vf.objLabels(sl, depth+1) {
+				vf.elemOf(l, fl, out, seen, depth+1)
+			}
+			return
+		}
 		if len(cs) == 0 && idx == 0 && fn.Signature.Recv() != nil {
 			// receiver of a method that is only called through an interface (a ResponseWriter wrapper handed to a
 			// handler): for an unexported type every object is created in the module, and the ones that can be
